@@ -107,6 +107,15 @@ def model_check(v, tier):
         if res.violation != w:
             raise vlib.MachineryError("vacuity: witness %s not reachable (%s)" % (w, res.error or res.violation))
     v.cov["witnesses_reached"] = len(r_wt)
+    # unbounded in the length of behaviours, and beyond the sizes TLC exhausts: Apalache discharges the inductive invariant
+    # of the client-side model (SSELegacyCliInd.tla: K1-K6 + the reader's queue holds exactly the scanned, unread,
+    # non-comment events in serial order) over the module's own Next for MaxEv/MaxRead/MaxWrite = 6/8/4 (the size TLC
+    # only samples in SSELegacyCli_sim.cfg).  ~45 s: thorough tier only.
+    if not quick:
+        ra = vlib.run_apalache_inductive("SSELegacyCliInd", "CInit", "IndInit", "IndInv")
+        v.cov.setdefault("apalache_inductive", []).append(ra)
+        if ra["status"] == "refuted":
+            raise vlib.MachineryError("SSELegacyCliInd: IndInv is not inductive (%s)" % ra.get("detail"))
     v.cov["leads_found_by_tlc"] = ["%s violates %s" % (c, i) for (c, i), _ in r_ld]
 
 
